@@ -14,7 +14,7 @@ use serde_json::json;
 pub struct C10;
 
 const CTX_KEYS: &[(&str, &str)] = &[("a", "x"), ("b", "y"), ("c", "z")];
-const MARKERS: &[&str] = &["f1", "f2", "f3", "f4", "f5", "f6"];
+const MARKERS: &[&str] = &["f1", "f2", "f3", "f4", "f5", "f6", "f9", "f10", "f11", "f12"];
 
 fn up(s: &str) -> String {
     code_name(oscode_of(s))
@@ -157,15 +157,17 @@ impl Prop for C10 {
     }
     fn gen(&self, seed: u64, _tier: Tier) -> Case {
         let mut r = Rng::new(seed);
-        let ncases = r.range(1, 6) as usize;
+        // (occasionally more firing fallthrough cases than the 8-entry action queue holds)
+        let many = r.chance(30);
+        let ncases = if many { r.range(7, 10) } else { r.range(1, 6) } as usize;
         let max_depth = *r.pick(&[1usize, 2, 3, 4, 7]);
         let mut sw = vec![a("switch")];
         for i in 0..ncases {
-            let nitems = r.range(0, 2);
+            let nitems = if many && r.chance(700) { 0 } else { r.range(0, 2) };
             let cond = l((0..nitems).map(|_| gen_expr(&mut r, 0, max_depth)).collect());
             sw.push(cond);
             sw.push(a(MARKERS[i]));
-            sw.push(a(*r.pick(&["break", "fallthrough", "fallthrough"])));
+            sw.push(a(if many { "fallthrough" } else { *r.pick(&["break", "fallthrough", "fallthrough"]) }));
         }
         let swt = l(sw).to_text();
         let fork_trig = *r.pick(&["x", "y", "z", "1"]);
@@ -382,7 +384,9 @@ impl Prop for C10 {
                                         rs.base_layer,
                                         if n == "s" { sw.to_text() } else { fork.to_text() }
                                     ),
-                                    vec![],
+                                    // cause of a known finding: more cases fire at once than the
+                                    // 8-entry action queue holds
+                                    if expected.len() > 8 { vec!["more-than-8-firing-cases".to_string()] } else { vec![] },
                                 );
                             }
                             o.count(if n == "s" { "evaluated.switch" } else { "evaluated.fork" }, 1);
